@@ -8,6 +8,7 @@ package main
 //   - the emitting call sits unconditionally in the body and depends on the element (through local definitions).
 
 import (
+	"fmt"
 	"go/ast"
 	"go/token"
 	"go/types"
@@ -339,4 +340,132 @@ func reduceFuncFrame(sk *Skeleton, rf *ast.FuncDecl) string {
 		return "some return does not return the filled entry"
 	}
 	return ""
+}
+
+// ---------------------------------------------------------------------------------------------
+// displayNameRule — symbol names shown in traces, listings and diagrams go through RemoveTempName, which must
+// invert genTempName: genTempName(x) = PREFIX + x, and RemoveTempName(PREFIX + x) shows exactly x (between quotes),
+// any other name unchanged. Decided on the two functions: the prefix constant is the same, the test is a prefix
+// test with it, and the text removed is exactly len(PREFIX) bytes (slice from len(PREFIX) or strings.TrimPrefix) —
+// a character-set operation (TrimLeft, Trim) also eats characters of x.
+func displayNameRule(c *Ctx, r *Report, clause string) {
+	gen := c.need(r, clause, "Parser", "", "genTempName")
+	rem := c.need(r, clause, "Parser", "", "RemoveTempName")
+	if gen == nil || rem == nil {
+		return
+	}
+	key := "Parser.RemoveTempName/inverts-genTempName"
+	ginfo, rinfo := gen.Pkg.TypesInfo, rem.Pkg.TypesInfo
+	prefix, okP := "", false
+	gp := paramObjs(ginfo, gen.Decl)
+	ast.Inspect(gen.Decl.Body, func(n ast.Node) bool {
+		if rt, ok := n.(*ast.ReturnStmt); ok && len(rt.Results) == 1 && len(gp) == 1 {
+			if be, ok := unparen(rt.Results[0]).(*ast.BinaryExpr); ok && be.Op == token.ADD && identObj(ginfo, be.Y) == gp[0] {
+				prefix, okP = constString(ginfo, be.X)
+			}
+		}
+		return true
+	})
+	if !okP || prefix == "" {
+		r.Undecided(clause, "R1 PROVENANCE", key, c.pos(gen.Decl.Pos()), "genTempName is not `return <constant prefix> + name`")
+		return
+	}
+	rp := paramObjs(rinfo, rem.Decl)
+	if len(rp) != 1 {
+		r.Undecided(clause, "R1 PROVENANCE", key, c.pos(rem.Decl.Pos()), "RemoveTempName does not take one name")
+		return
+	}
+	in := rp[0]
+	why := ""
+	// every strings.* call must be a prefix operation on (in, PREFIX)
+	ast.Inspect(rem.Decl.Body, func(n ast.Node) bool {
+		call, ok := n.(*ast.CallExpr)
+		if !ok {
+			return true
+		}
+		fn := callee(rinfo, call)
+		if fn == nil || fn.Pkg() == nil || fn.Pkg().Path() != "strings" {
+			return true
+		}
+		switch fn.Name() {
+		case "HasPrefix", "TrimPrefix":
+			if len(call.Args) != 2 || identObj(rinfo, call.Args[0]) != in {
+				why = "strings." + fn.Name() + " is not applied to the name"
+			} else if p, ok := constString(rinfo, call.Args[1]); !ok || p != prefix {
+				why = "strings." + fn.Name() + " uses another prefix than genTempName's " + fmt.Sprintf("%q", prefix)
+			}
+		default:
+			why = "the name is edited with strings." + fn.Name() + ", which is not a prefix operation (it can remove characters of the literal itself)"
+		}
+		return true
+	})
+	// slices of the name: in[n:] and in[0:n] with n == len(PREFIX)
+	ast.Inspect(rem.Decl.Body, func(n ast.Node) bool {
+		se, ok := n.(*ast.SliceExpr)
+		if !ok || identObj(rinfo, se.X) != in {
+			return true
+		}
+		for _, b := range []ast.Expr{se.Low, se.High} {
+			if b == nil {
+				continue
+			}
+			if v, isC := constInt(rinfo, b); isC {
+				if v != 0 && int(v) != len(prefix) {
+					why = fmt.Sprintf("the name is cut at byte %d but the prefix %q is %d bytes long", v, prefix, len(prefix))
+				}
+			} else if call, ok := unparen(b).(*ast.CallExpr); ok && builtinName(rinfo, call) == "len" && len(call.Args) == 1 {
+				if p, ok := constString(rinfo, call.Args[0]); !ok || p != prefix {
+					why = "the name is cut at the length of something other than the prefix"
+				}
+			} else {
+				why = "the name is cut at a position that is not the prefix length (" + exprString(b) + ")"
+			}
+		}
+		return true
+	})
+	// comparisons with a constant must use the prefix
+	ast.Inspect(rem.Decl.Body, func(n ast.Node) bool {
+		be, ok := n.(*ast.BinaryExpr)
+		if !ok || (be.Op != token.EQL && be.Op != token.NEQ) {
+			return true
+		}
+		for _, side := range []ast.Expr{be.X, be.Y} {
+			if p, ok := constString(rinfo, side); ok && p != prefix {
+				why = fmt.Sprintf("the name is compared with %q, not with genTempName's prefix %q", p, prefix)
+			}
+		}
+		return true
+	})
+	// some return strips (slice from len(prefix) / TrimPrefix) and some return gives the name back unchanged
+	strips, keeps := false, false
+	ast.Inspect(rem.Decl.Body, func(n ast.Node) bool {
+		rt, ok := n.(*ast.ReturnStmt)
+		if !ok || len(rt.Results) != 1 {
+			return true
+		}
+		if identObj(rinfo, rt.Results[0]) == in {
+			keeps = true
+			return true
+		}
+		ast.Inspect(rt.Results[0], func(m ast.Node) bool {
+			switch x := m.(type) {
+			case *ast.SliceExpr:
+				if identObj(rinfo, x.X) == in && x.Low != nil && x.High == nil {
+					strips = true
+				}
+			case *ast.CallExpr:
+				if fn := callee(rinfo, x); fn != nil && fn.FullName() == "strings.TrimPrefix" {
+					strips = true
+				}
+			}
+			return true
+		})
+		return true
+	})
+	if why == "" && (!strips || !keeps) {
+		why = "RemoveTempName does not have the two outcomes `literal → text after the prefix` and `other name → unchanged`"
+	}
+	r.Check(why == "", clause, "R1 PROVENANCE", key, c.pos(rem.Decl.Pos()),
+		fmt.Sprintf("genTempName prepends %q; RemoveTempName tests for that prefix and removes exactly its %d bytes: a literal is displayed with its own character(s), every other name unchanged", prefix, len(prefix)),
+		"the displayed name of a character-literal token is not the literal: "+why)
 }
